@@ -215,7 +215,7 @@ pub fn remap_op(op: &mut Op, fk: &dyn Fn(usize) -> usize, fb: &dyn Fn(usize) -> 
         }
         Op::ReadHash { addr } | Op::Exists { addr } | Op::RemoveHash { addr } => remap_addr(addr, fb),
         Op::Stream { by, .. } | Op::Extract { by, .. } => remap_by(by, fk, fb),
-        Op::List | Op::Clear | Op::IdxLs | Op::Chdir { .. } => {}
+        Op::List | Op::Clear | Op::IdxLs | Op::Chdir { .. } | Op::TmpElsewhere => {}
         Op::PlantRecord { key, .. } => *key = fk(*key),
         Op::IdxInsert { key, fields } => {
             *key = fk(*key);
